@@ -68,3 +68,70 @@ package searcher
 //@   requires [candidate-is-the-driving-cursor] (s.mustSearcher != nil ==> s.currentMatch == s.currMust) && (s.mustSearcher == nil ==> s.currentMatch == s.currShould)
 //@   requires [called-only-when-trailing] s.currentMatch == nil || s.currentMatch.Number < number
 //@   modifies *
+
+// the must-not cursor is advanced to the candidate only when it trails it
+//@ func BooleanSearcher.doesMustNotExcludeCandidate(ctx) (excluded, err)
+//@   props C07
+//@   requires s != nil && ctx != nil && s.currMustNot != nil && s.currentMatch != nil && s.mustNotSearcher != nil
+//@   requires [distinct-cursors] s.currMustNot != s.currentMatch
+//@   requires [must-not-cursor] (lastSome[iref(s.mustNotSearcher)] <==> s.currMustNot != nil) && (s.currMustNot != nil ==> lastNum[iref(s.mustNotSearcher)] == s.currMustNot.Number)
+//@   modifies *
+
+// conjunction: a clause is advanced only when its cursor trails the target
+//@ func ConjunctionSearcher.advanceChild(ctx, i, number) (err)
+//@   props C07
+//@   requires s != nil && ctx != nil && 0 <= i && i < len(s.searchers) && len(s.currs) == len(s.searchers)
+//@   requires [cursor-trails] s.currs[i] == nil || s.currs[i].Number < number
+//@   requires [cursor-link] (lastSome[iref(s.searchers[i])] <==> s.currs[i] != nil) && (s.currs[i] != nil ==> lastNum[iref(s.searchers[i])] == s.currs[i].Number)
+//@   modifies elems(s.currs), lastSome, lastNum
+//@   assume_frame
+//@   ensures [other-cursors-untouched] forall k int :: (0 <= k && k < len(s.currs) && k != i) ==> s.currs[k] == old(s.currs[k])
+//@   ensures [other-clauses-untouched] forall x ref :: x != iref(s.searchers[i]) ==> (lastSome[x] == old(lastSome)[x] && lastNum[x] == old(lastNum)[x])
+//@   ensures [cursor-link] err == nil ==> ((lastSome[iref(s.searchers[i])] <==> s.currs[i] != nil) && (s.currs[i] != nil ==> (lastNum[iref(s.searchers[i])] == s.currs[i].Number && s.currs[i].Number >= number)))
+
+// Next is not inlined into Advance here (its own obligations are not part of this claim)
+//@ func ConjunctionSearcher.Next
+//@   props C07
+//@   opaque
+
+//@ func ConjunctionSearcher.Advance(ctx, number) (dm, err)
+//@   props C07
+//@   requires s != nil && ctx != nil && len(s.currs) == len(s.searchers) && s.initialized
+//@   requires [distinct-clauses] forall a int, b int :: (0 <= a && a < b && b < len(s.searchers)) ==> iref(s.searchers[a]) != iref(s.searchers[b])
+//@   requires [cursor-links] forall k int :: (0 <= k && k < len(s.searchers)) ==> ((lastSome[iref(s.searchers[k])] <==> s.currs[k] != nil) && (s.currs[k] != nil ==> lastNum[iref(s.searchers[k])] == s.currs[k].Number))
+//@   modifies *
+//@   loop 1
+//@     invariant len(s.currs) == len(s.searchers) && s.searchers == old(s.searchers) && s.currs == old(s.currs)
+//@     invariant forall a int, b int :: (0 <= a && a < b && b < len(s.searchers)) ==> iref(s.searchers[a]) != iref(s.searchers[b])
+//@     invariant [links-of-the-clauses-not-visited-yet] forall k int :: (rangeindex < k && k < len(s.searchers)) ==> ((lastSome[iref(s.searchers[k])] <==> s.currs[k] != nil) && (s.currs[k] != nil ==> lastNum[iref(s.searchers[k])] == s.currs[k].Number))
+
+// disjunction (slice form): the same discipline, the guard sits in the loop itself
+//@ func DisjunctionSliceSearcher.Next
+//@   props C07
+//@   opaque
+//@ func DisjunctionSliceSearcher.updateMatches
+//@   props C07
+//@   opaque
+
+//@ func DisjunctionSliceSearcher.Advance(ctx, number) (dm, err)
+//@   props C07
+//@   requires s != nil && ctx != nil && len(s.currs) == len(s.searchers) && s.initialized
+//@   requires [distinct-clauses] forall a int, b int :: (0 <= a && a < b && b < len(s.searchers)) ==> iref(s.searchers[a]) != iref(s.searchers[b])
+//@   requires [cursor-links] forall k int :: (0 <= k && k < len(s.searchers)) ==> ((lastSome[iref(s.searchers[k])] <==> s.currs[k] != nil) && (s.currs[k] != nil ==> lastNum[iref(s.searchers[k])] == s.currs[k].Number))
+//@   requires [distinct-cursors] forall a int, b int :: (0 <= a && a < b && b < len(s.currs)) ==> (s.currs[a] == nil || s.currs[a] != s.currs[b])
+//@   modifies *
+//@   loop 1
+//@     invariant [cursors-not-visited-yet-are-distinct] forall a int, b int :: (rangeindex < a && a < b && b < len(s.currs)) ==> (s.currs[a] == nil || s.currs[a] != s.currs[b])
+//@     invariant len(s.currs) == len(s.searchers) && s.searchers == old(s.searchers) && s.currs == old(s.currs)
+//@     invariant forall a int, b int :: (0 <= a && a < b && b < len(s.searchers)) ==> iref(s.searchers[a]) != iref(s.searchers[b])
+//@     invariant [links-of-the-clauses-not-visited-yet] forall k int :: (rangeindex < k && k < len(s.searchers)) ==> ((lastSome[iref(s.searchers[k])] <==> s.currs[k] != nil) && (s.currs[k] != nil ==> lastNum[iref(s.searchers[k])] == s.currs[k].Number))
+
+// phrase searcher: one must clause, same discipline
+//@ func PhraseSearcher.Next
+//@   props C07
+//@   opaque
+//@ func PhraseSearcher.Advance(ctx, number) (dm, err)
+//@   props C07
+//@   requires s != nil && ctx != nil && s.initialized && s.mustSearcher != nil
+//@   requires [must-cursor] (lastSome[iref(s.mustSearcher)] <==> s.currMust != nil) && (s.currMust != nil ==> lastNum[iref(s.mustSearcher)] == s.currMust.Number)
+//@   modifies *
